@@ -33,6 +33,13 @@ def prevN (items : List Item) (id : Nat) : Nat :=
   | some i => i.numRetries
   | none => 0
 
+/-- `origRev` of the item stored for `id` (`dflt` if none): `retries.Add` keeps the revision of the
+    change that failed originally over the retries of an item -/
+def prevO (items : List Item) (id dflt : Nat) : Nat :=
+  match items.find? (·.id = id) with
+  | some i => i.origRev
+  | none => dflt
+
 /-- the item `retries.Add` stores -/
 def mkItem (now : Nat) (cfg : Cfg) (o : RObj) (rev origRev : Nat) (del : Bool) (n : Nat) : Item :=
   { id := o.id, obj := o, rev, origRev, delete := del, retryAt := now + backoff cfg.minB cfg.maxB n,
@@ -41,7 +48,7 @@ def mkItem (now : Nat) (cfg : Cfg) (o : RObj) (rev origRev : Nat) (del : Bool) (
 def popItem (id : Nat) (i : Item) : Item := if i.id = id then { i with inQueue := false } else i
 
 def V.add (v : V) (o : RObj) (rev origRev : Nat) (del : Bool) : V :=
-  { v with items := v.items.filter (·.id ≠ o.id) ++ [mkItem v.now v.cfg o rev origRev del (prevN v.items o.id + 1)] }
+  { v with items := v.items.filter (·.id ≠ o.id) ++ [mkItem v.now v.cfg o rev (prevO v.items o.id origRev) del (prevN v.items o.id + 1)] }
 
 def V.clear (v : V) (id : Nat) : V := { v with items := v.items.filter (·.id ≠ id) }
 
@@ -123,7 +130,7 @@ theorem popItem_of_ne {X : Nat} {i : Item} (h : i.id ≠ X) : popItem X i = i :=
 theorem popItem_of_eq {X : Nat} {i : Item} (h : i.id = X) : popItem X i = { i with inQueue := false } := by unfold popItem; rw [if_pos h]
 
 theorem mem_add_items (v : V) (o : RObj) (a b : Nat) (d : Bool) (x : Item) :
-    x ∈ (v.add o a b d).items ↔ (x ∈ v.items ∧ x.id ≠ o.id) ∨ x = mkItem v.now v.cfg o a b d (prevN v.items o.id + 1) := by
+    x ∈ (v.add o a b d).items ↔ (x ∈ v.items ∧ x.id ≠ o.id) ∨ x = mkItem v.now v.cfg o a (prevO v.items o.id b) d (prevN v.items o.id + 1) := by
   unfold V.add
   simp only [List.mem_append, List.mem_filter, List.mem_singleton]
   simp
@@ -151,6 +158,44 @@ theorem prevN_of_not_mem {items : List Item} {id : Nat} (h : ∀ it ∈ items, i
   have : items.find? (·.id = id) = none := by
     rw [List.find?_eq_none]; intro x hx; simpa using h x hx
   rw [this]
+
+theorem prevO_of_mem {items : List Item} (hpw : items.Pairwise (fun a b => a.id ≠ b.id)) {it : Item} (hit : it ∈ items) (d : Nat) :
+    prevO items it.id d = it.origRev := by
+  unfold prevO
+  cases hf : items.find? (·.id = it.id) with
+  | none =>
+    rw [List.find?_eq_none] at hf
+    exact absurd (by simp) (hf it hit)
+  | some i =>
+    have hm := List.mem_of_find?_eq_some hf
+    have hid : i.id = it.id := by simpa using List.find?_some hf
+    rcases pairwise_mem_eq hpw hm hit with e | e | e
+    · rw [e]
+    · exact absurd hid e
+    · exact absurd hid.symm e
+
+theorem prevO_of_not_mem {items : List Item} {id : Nat} (h : ∀ it ∈ items, it.id ≠ id) (d : Nat) : prevO items id d = d := by
+  unfold prevO
+  have : items.find? (·.id = id) = none := by
+    rw [List.find?_eq_none]; intro x hx; simpa using h x hx
+  rw [this]
+
+/-- the stored `origRev` is the given one (no item yet) or that of the item for `id` -/
+theorem prevO_cases (items : List Item) (id d : Nat) : prevO items id d = d ∨ ∃ i ∈ items, i.id = id ∧ prevO items id d = i.origRev := by
+  unfold prevO
+  cases hf : items.find? (·.id = id) with
+  | none => exact Or.inl rfl
+  | some i => exact Or.inr ⟨i, List.mem_of_find?_eq_some hf, by simpa using List.find?_some hf, rfl⟩
+
+theorem prevO_pop (items : List Item) (X id d : Nat) : prevO (items.map (popItem X)) id d = prevO items id d := by
+  unfold prevO
+  induction items with
+  | nil => rfl
+  | cons a as ih =>
+    simp only [List.map_cons, List.find?_cons, popItem_id]
+    by_cases h : a.id = id
+    · simp [h]
+    · simp only [h, decide_false]; exact ih
 
 theorem prevN_pop (items : List Item) (X id : Nat) : prevN (items.map (popItem X)) id = prevN items id := by
   unfold prevN
